@@ -563,7 +563,7 @@ func c16controls(c *Ctx) {
 		mk   func() gldap.Option
 	}
 	var pool []optv
-	for _, v := range []uint{0, 1, 8, 9, 255, 1 << 31} {
+	for _, v := range []uint{0, 1, 8, 9, 127, 128, 255, 256, 264, 65536, 1 << 31, 1<<32 + 3, 1 << 63} {
 		v := v
 		pool = append(pool,
 			optv{fmt.Sprintf("WithGraceAuthNsRemaining(%d)", v), func() gldap.Option { return gldap.WithGraceAuthNsRemaining(v) }},
@@ -636,6 +636,9 @@ func c16controls(c *Ctx) {
 				}
 			})
 			rep := c16rep{Fn: ctor, Note: fmt.Sprintf("options=%v", names)}
+			if ctor == "NewControlBeheraPasswordPolicy" && k == "" {
+				c16behera(c, ctor, names, ctl, err, rep)
+			}
 			switch {
 			case k != "":
 				c.Report(k, ctor+" panicked: "+rep.Note, rep)
@@ -770,5 +773,58 @@ func c16replay(payload json.RawMessage, c *Ctx) {
 		// constructor families are cheap: re-run the whole family on one shard
 		c.NShards, c.Shard = 1, 0
 		c16run(c)
+	}
+}
+
+// c16behera compares NewControlBeheraPasswordPolicy with its documented contract.
+func c16behera(c *Ctx, ctor string, names []string, ctl gldap.Control, err error, rep c16rep) {
+	// reference: the last option of each kind wins; at most one of grace / expire / error may be set,
+	// an error code must be one of the nine defined ones (0..8)
+	grace, expire, code := -1, -1, -1
+	for _, n := range names {
+		var v uint
+		switch {
+		case strings.HasPrefix(n, "WithGraceAuthNsRemaining("):
+			fmt.Sscanf(n, "WithGraceAuthNsRemaining(%d)", &v)
+			grace = int(v)
+		case strings.HasPrefix(n, "WithSecondsBeforeExpiration("):
+			fmt.Sscanf(n, "WithSecondsBeforeExpiration(%d)", &v)
+			expire = int(v)
+		case strings.HasPrefix(n, "WithErrorCode("):
+			fmt.Sscanf(n, "WithErrorCode(%d)", &v)
+			code = int(v)
+		}
+	}
+	set := 0
+	for _, x := range []int{grace, expire, code} {
+		if x != -1 {
+			set++
+		}
+	}
+	if grace < -1 || expire < -1 {
+		// a count beyond the int range: nothing documents what it should become, so nothing is required
+		// of it here beyond "no panic" (checked below)
+		return
+	}
+	valid := set <= 1 && (code == -1 || code >= 0 && code <= 8)
+	b, _ := ctl.(*gldap.ControlBeheraPasswordPolicy)
+	switch {
+	case valid && (err != nil || b == nil):
+		c.Report(ctor+" rejects valid arguments", fmt.Sprintf("%s: %v", rep.Note, err), rep)
+	case !valid && err == nil:
+		what := "an error code outside 0..8"
+		if set > 1 {
+			what = "more than one of grace / expire / error code"
+		}
+		c.Report(ctor+" accepts invalid arguments ("+what+") without an error", rep.Note, rep)
+	case valid:
+		gc, gs := b.ErrorCode()
+		ws := ""
+		if code != -1 {
+			ws = gldap.BeheraPasswordPolicyErrorMap[int8(code)]
+		}
+		if b.Grace() != grace || b.Expire() != expire || gc != code || gs != ws {
+			c.Report(ctor+" returns a control with other values than the options gave", fmt.Sprintf("%s: grace=%d expire=%d error=%d %q", rep.Note, b.Grace(), b.Expire(), gc, gs), rep)
+		}
 	}
 }
